@@ -1,7 +1,9 @@
 package rules
 
 import (
+	"fmt"
 	"go/token"
+	"go/types"
 	"regexp"
 	"strings"
 
@@ -21,6 +23,8 @@ func runC20(ctx *core.Ctx) {
 	ctx.Rule("S1", "immutable after start: Server fields are stored only in the constructor and the module-list reader, before the Serve goroutine starts; nothing reachable from the request handler stores into a Server field, into a package-level variable, or through a value obtained from one of the caches", 2)
 	ctx.Rule("S2", "payload provenance: .info/.mod responses write the Data of the archive entry whose Name equals \".\"+ext; the zip holds, for every entry whose Name does not start with a dot (tested on the entry's own Name), a member named path@vers/+Name containing that entry's Data; the list endpoint prints a version only under path equality, not-a-pseudo-version and module.Check == nil; the pseudo-version pattern (a constant) classifies the canonical pseudo-version forms, with and without +incompatible, as pseudo and plain releases as not", 5)
 	ctx.Rule("S3", "every exit answers: each return of the handler is preceded by a body write, http.NotFound or http.Error (the list branch answers NotFound when it printed nothing)", 5)
+	ctx.Rule("S5", "one file-name codec: readArchive names a stored version EscapePath(path) ('/' as '_') + '_' + EscapeVersion(version), each escape applied to its own parameter; readModList inverts it with UnescapePath / UnescapeVersion on the parts before and after the last \"_v\"", 2)
+	ctx.Rule("S6", "not stored means nil: on every return path of the archive-cache callback the value is nil unless the nearest dominating error test established a nil error; the handler answers 404 exactly for nil", 1)
 	ctx.Rule("S4", "cache users assert the type their callback returns (C10.K7) for zipCache and archiveCache", 2)
 	h := ctx.Need("S3", "goproxytest", "(*Server).handler")
 	ns := ctx.Need("S1", "goproxytest", "newServer")
@@ -343,6 +347,149 @@ func runC20(ctx *core.Ctx) {
 	// ---- the caches themselves: once-only computation and safe publication (C10's rules,
 	// re-checked here because 'same responses under concurrent first requests' rests on them)
 	runC10(ctx)
+	// ---- S5: the file-name codec of the lister and of the reader agree
+	if ra := ctx.Need("S5", "goproxytest", "(*Server).readArchive"); ra != nil {
+		g := graph(p, ra)
+		pathP, versP := ra.Params[1], ra.Params[2]
+		const mod = "golang.org/x/mod/module."
+		var bad []string
+		nEsc := 0
+		for _, c := range g.Instrs2Calls(func(c *ssa.Call) bool { return strings.HasPrefix(ssax.CalleeName(&c.Call), mod+"Escape") }) {
+			nEsc++
+			switch ssax.CalleeName(&c.Call) {
+			case mod + "EscapePath":
+				if c.Call.Args[0] != ssa.Value(pathP) {
+					bad = append(bad, "EscapePath is applied to something other than the module path")
+				}
+			case mod + "EscapeVersion":
+				if c.Call.Args[0] != ssa.Value(versP) {
+					bad = append(bad, "EscapeVersion is applied to something other than the version")
+				}
+			}
+		}
+		var joined ssa.Value
+		for _, j := range g.Calls("path/filepath.Join") {
+			el := variadicElems(j.Call.Args[0])
+			if len(el) == 2 {
+				joined = el[1]
+			}
+		}
+		if joined == nil {
+			bad = append(bad, "the archive name is not built by filepath.Join(dir, name)")
+		} else {
+			thr := func(c *ssa.Call) bool { return strings.HasPrefix(ssax.CalleeName(&c.Call), "strings.") }
+			if !ssax.DerivedFrom(joined, isCallOf([]string{mod + "EscapeVersion"}, isVal(versP)), thr) {
+				bad = append(bad, "the file name's version part is not module.EscapeVersion(version), the inverse of the lister's UnescapeVersion (EscapePath rejects '+incompatible' and upper-case pre-release versions that are stored)")
+			}
+			if !ssax.DerivedFrom(joined, isCallOf([]string{mod + "EscapePath"}, isVal(pathP)), thr) {
+				bad = append(bad, "the file name's path part is not module.EscapePath(path), the inverse of the lister's UnescapePath")
+			}
+		}
+		ctx.Check(len(bad) == 0 && nEsc >= 2, "S5", "goproxytest.readArchive#name-encoding", ra.Pos(), "stored file name = EscapePath(path) with '/' as '_' + \"_\" + EscapeVersion(version) %v", bad)
+	}
+	if rl := ctx.Need("S5", "goproxytest", "(*Server).readModList"); rl != nil {
+		g := graph(p, rl)
+		const mod = "golang.org/x/mod/module."
+		var bad []string
+		ups := g.Calls(mod + "UnescapePath")
+		uvs := g.Calls(mod + "UnescapeVersion")
+		if len(ups) != 1 || len(uvs) != 1 {
+			bad = append(bad, fmt.Sprintf("expected one UnescapePath and one UnescapeVersion, found %d and %d", len(ups), len(uvs)))
+		} else {
+			split := func(v ssa.Value) (last, first bool) {
+				ssax.DerivedFrom(v, func(x ssa.Value) bool {
+					sl, ok := x.(*ssa.Slice)
+					if !ok {
+						return false
+					}
+					for _, b := range []ssa.Value{sl.Low, sl.High} {
+						if b == nil {
+							continue
+						}
+						if ssax.DerivedFrom(b, isCallOf([]string{"strings.LastIndex"}, nil, isConstStr("_v")), nil) {
+							last = true
+						} else if ssax.DerivedFrom(b, func(y ssa.Value) bool {
+							c, ok := y.(*ssa.Call)
+							return ok && strings.HasPrefix(ssax.CalleeName(&c.Call), "strings.") && !strings.HasPrefix(ssax.CalleeName(&c.Call), "strings.LastIndex")
+						}, nil) {
+							first = true
+						}
+					}
+					return false
+				}, func(c *ssa.Call) bool { return strings.HasPrefix(ssax.CalleeName(&c.Call), "strings.") })
+				return
+			}
+			for _, c := range []*ssa.Call{ups[0], uvs[0]} {
+				last, first := split(c.Call.Args[0])
+				if first || !last {
+					bad = append(bad, "path and version are not separated at the last \"_v\" of the file name (a path element that begins with v, such as a /v2 major-version suffix, contains an earlier one)")
+					break
+				}
+			}
+		}
+		ctx.Check(len(bad) == 0, "S5", "goproxytest.readModList#name-decoding", rl.Pos(), "listed module = UnescapePath(name before the last _v, '_' as '/') at UnescapeVersion(rest) %v", bad)
+	}
+	// ---- S6: nothing stored => nil, which the handler turns into 404
+	if ra := ctx.Need("S6", "goproxytest", "(*Server).readArchive"); ra != nil {
+		var cb *ssa.Function
+		graph(p, ra).Instrs(func(i ssa.Instruction) {
+			c, ok := i.(*ssa.Call)
+			if !ok || !strings.HasSuffix(ssax.CalleeName(&c.Call), "par.Cache).Do") || len(c.Call.Args) < 3 {
+				return
+			}
+			if mc, ok := c.Call.Args[2].(*ssa.MakeClosure); ok {
+				cb, _ = mc.Fn.(*ssa.Function)
+			} else if f, ok := c.Call.Args[2].(*ssa.Function); ok {
+				cb = f
+			}
+		})
+		if cb == nil {
+			ctx.Unknown("S6", "goproxytest.readArchive#callback", ra.Pos(), "archive cache callback not found")
+		} else {
+			ctx.Seen(cb)
+			g := graph(p, cb)
+			errT := types.Universe.Lookup("error").Type()
+			ex := &ssax.Explorer{G: g}
+			n, bad := 0, ""
+			for _, e := range ex.Run(ssax.Point{}) {
+				r, ok := e.Last.(*ssa.Return)
+				if !ok || e.Kind != ssax.ExitReturn || len(r.Results) != 1 || e.Nil == nil {
+					continue
+				}
+				n++
+				rv := ssax.Strip(r.Results[0])
+				if e.Nil(rv) == ssax.True {
+					continue
+				}
+				// the nearest dominating nil test of an error
+				var ev ssa.Value
+				for b := r.Block().Index; ; b = g.Idom(b) {
+					blk := cb.Blocks[b]
+					if ifi, ok := blk.Instrs[len(blk.Instrs)-1].(*ssa.If); ok && b != r.Block().Index || ok && len(blk.Instrs) > 1 {
+						cond := ifi.Cond
+						for {
+							u, isU := cond.(*ssa.UnOp)
+							if !isU || u.Op != token.NOT {
+								break
+							}
+							cond = u.X
+						}
+						if x, _, isNC := ssax.NilCheck(cond); isNC && types.Identical(x.Type(), errT) {
+							ev = x
+							break
+						}
+					}
+					if b == 0 || g.Idom(b) < 0 {
+						break
+					}
+				}
+				if ev == nil || e.Nil(ev) != ssax.True {
+					bad = "a path returns a possibly non-nil archive although the last lookup error is not known to be nil: " + strings.Join(e.Trail, " ")
+				}
+			}
+			ctx.Check(bad == "" && n > 0 && !ex.Overflow, "S6", "goproxytest.readArchive#nil-unless-found", cb.Pos(), "the cached value is non-nil only on paths where the lookup error is nil (%d return paths) %s", n, bad)
+		}
+	}
 	// ---- S4 (reuse K7 logic by running the C10 user check restricted to goproxytest)
 	do := p.Func("par", "(*Cache).Do")
 	if do != nil {
